@@ -186,8 +186,12 @@ ApplyGet(m, o, e, obj, step) ==
 \* Re-assigned samples range over representatives of the regions cut out by the constants of the formula.
 Reported(e, v) == UNION {{k + 1 : k \in iv[1]..iv[2]} : iv \in SeqToSet(e.rep[v])}
 ConstsOf(p) == {q.c : q \in {q \in SubF(p) : q.op = "const"}}
-RegionVals(p, W, v, N) == LET cs == ConstsOf(p) \cup {0} IN
-   {c - 1 : c \in cs} \cup cs \cup {c + 1 : c \in cs} \cup {-c : c \in cs} \cup {W[v][k] : k \in 1..N}
+\* representatives of the regions cut out by the constants (below / at / above each constant, at scale S: +-1
+\* scaled unit is the nearest representable neighbour), mirrored when the formula negates terms
+RegionVals(p, W, v, N) ==
+  LET cs0 == ConstsOf(p)
+      cs == IF HasOp(p, {"neg", "abs", "sub", "add", "mul"}) THEN cs0 \cup {-c : c \in cs0} \cup {0} ELSE cs0 IN
+   {c - 1 : c \in cs} \cup cs \cup {c + 1 : c \in cs} \cup {W[v][k] : k \in 1..N}
 RECURSIVE NodeCount(_)
 NodeCount(p) == IF p.op \in {"var", "const"} THEN 1 ELSE IF p.op \in Un1 THEN 1 + NodeCount(p.l)
                 ELSE 1 + NodeCount(p.l) + NodeCount(p.r)
